@@ -112,6 +112,7 @@ Definition rangeZ (a b : Z) : list Z := map (fun k => (a + Z.of_nat k)%Z) (seq 0
 Definition qrange (a b : Q) : list Q := map inject_Z (rangeZ (Qceiling a) (Qceiling b)).
 Definition qenumerate {A} (l : list A) : list (Q * A) := combine (map natQ (seq 0 (length l))) l.
 Definition repeatQ {A} (x : A) (n : Q) : list A := repeat x (Qnat n).
+Definition list_repeat {A} (l : list A) (n : Q) : list A := concat (repeat l (Qnat n)).    (* Python l * n *)
 
 (* first index of x in l (Python list.index); default 0 when absent (Python raises ValueError) *)
 Fixpoint qindex_from (l : list Q) (x : Q) (k : nat) : Q :=
